@@ -197,3 +197,38 @@ class SimLoop(base_events.BaseEventLoop):
 
 def new_loop() -> SimLoop:
     return SimLoop().install()
+
+
+class debug_logging:
+    """Context manager: while active, the library's loggers really emit DEBUG records (formatted into a sink that is
+    thrown away) - a debug-only formatting path that raises, or changes what is sent, shows like any other behaviour."""
+
+    def __init__(self, on: bool) -> None:
+        self.on = on
+
+    def __enter__(self):
+        if not self.on:
+            return self
+        import io
+        import logging
+
+        self.prev_disable = logging.root.manager.disable
+        logging.disable(logging.NOTSET)
+        self.logger = logging.getLogger("aioesphomeapi")
+        self.prev_level, self.prev_prop = self.logger.level, self.logger.propagate
+        self.handler = logging.StreamHandler(io.StringIO())
+        self.handler.setFormatter(logging.Formatter("%(name)s %(message)s"))
+        self.logger.addHandler(self.handler)
+        self.logger.setLevel(logging.DEBUG)
+        self.logger.propagate = False
+        return self
+
+    def __exit__(self, *exc):
+        if self.on:
+            import logging
+
+            self.logger.removeHandler(self.handler)
+            self.logger.setLevel(self.prev_level)
+            self.logger.propagate = self.prev_prop
+            logging.disable(self.prev_disable)
+        return False
